@@ -217,7 +217,14 @@ pub struct ListCmd {
 
 /// Display version history of an object or file.
 #[derive(Args, Debug)]
+// `-h` is `--header` here, so the generated help flag, which also claims `-h`, is replaced by a
+// long-only one. Debug builds otherwise panic on clap's unique-short-option assertion.
+#[command(disable_help_flag = true)]
 pub struct LogCmd {
+    /// Print help information
+    #[arg(long, action = clap::ArgAction::Help)]
+    pub help: Option<bool>,
+
     /// Compact format
     #[arg(short, long)]
     pub compact: bool,
